@@ -618,6 +618,11 @@ class FnEmitter:
             return self.zero_of(self.ctype(e))
         if k == 'InitListExpr':
             ct = self.ctype(e)
+            rec = self.L.records.get(self.canon_t(e))
+            fields = [c for c in (rec or {}).get('inner', []) if c.get('kind') == 'FieldDecl']
+            if rec is not None and not rec.get('bases') and len(fields) == len(ch):
+                # a reference member is initialised with the address of its initialiser
+                return '(%s){%s}' % (ct, ', '.join(self.addr(c) if self.tm.canon_of(fd['type']).endswith('&') else self.val(c) for fd, c in zip(fields, ch)))
             return '(%s){%s}' % (ct, ', '.join(self.val(c) for c in ch))
         if k == 'CXXNewExpr':
             return self.new_expr(e)
@@ -1757,7 +1762,7 @@ class LoweringDriver(Lowering):
                 else:
                     fct = self.tm.ctype(canon_f)
                     lines.append('%s %s;' % (fct, fd['name']))
-                if fct.startswith('struct '):
+                if fct.startswith('struct ') and not fct.rstrip().endswith('*'):
                     deps.append(fct)
             if not lines:
                 lines = ['char _empty;']
@@ -1835,7 +1840,7 @@ class LoweringDriver(Lowering):
         # L0 primitives: alias signature-suffixed names to the generic implementation; unknown primitive = stop
         l0dir = os.path.join(os.path.dirname(os.path.dirname(os.path.abspath(__file__))), 'ghost')
         known = set()
-        for h in ('l0.h', 'l0_post.h', 'l0_sets.h', 'l0_aset.h'):
+        for h in ('l0.h', 'l0_post.h', 'l0_sets.h', 'l0_aset.h', 'l0c.h', 'l0c_post.h'):
             hp = os.path.join(l0dir, h)
             if os.path.exists(hp):
                 known |= set(re.findall(r'^static inline [^\n(]*?\b(L0_\w+)\s*\(', open(hp).read(), re.M))
@@ -1848,7 +1853,12 @@ class LoweringDriver(Lowering):
                     continue
                 parts = prim.split('__')
                 base = None
+                # an algorithm fed by move iterators has its own primitive (moves instead of copies), whatever the count type
+                if len(parts) == 2 and parts[1].startswith('move_iterator_pE_') and (parts[0] + '__move_iterator_pE') in known:
+                    base = parts[0] + '__move_iterator_pE'
                 for cut in range(len(parts) - 1, 0, -1):
+                    if base is not None:
+                        break
                     if '__'.join(parts[:cut]) in known:
                         base = '__'.join(parts[:cut]); break
                 if base in known:
